@@ -2,8 +2,9 @@
 (***************************************************************************)
 (* Validates what the real collector produced for an object graph against  *)
 (* the Collector machine. A trace = <<instance, result>>:                  *)
-(*   instance = [kind, child, slen, roots, maxVars, maxStr, maxColl,       *)
-(*               maxDepth]  built by the harness (it made the objects)     *)
+(*   instance = [kind, child, slen, roots, frames, maxVars, maxStr,        *)
+(*               maxColl, maxDepth, watch, wlim]  built by the harness     *)
+(*               (it made the objects)                                     *)
 (*   result   = [order, kids, vlen, trunc, wres] projected from the snapshot*)
 (*      order[id] = node recorded under variable id (via Variable.hash),   *)
 (*      kids[id]  = child variable ids in order (kids[1] = frame vars),    *)
@@ -25,13 +26,16 @@ TraceInit ==
     /\ l = 2
     /\ InitWith(T[1])
 
-TrStep == (Step \/ WatchBegin \/ WatchStep) /\ UNCHANGED <<tid, l>>
+TrStep == (Step \/ FrameBegin \/ FrameStep \/ WatchBegin \/ WatchStep) /\ UNCHANGED <<tid, l>>
 
+(* the locals mappings (nodes <= 0) are not entries of the delivered table: the harness puts the frame's variable  *)
+(* list in their place; a mapping recorded last of all (budget used up right after it) leaves no trace at all      *)
 Agrees(r) ==
-    /\ Len(r.order) = Len(rec)
-    /\ \A i \in 1..Len(rec) : r.order[i] = rec[i].n
-    /\ \A i \in 1..Len(rec) : r.kids[i] = kids[i]
-    /\ \A i \in 2..Len(rec) : r.vlen[i] = ValLen(i) /\ r.trunc[i] = Truncated(i)
+    /\ Len(r.order) <= Len(rec)
+    /\ \A i \in (Len(r.order) + 1)..Len(rec) : rec[i].n < 0 /\ kids[i] = <<>>
+    /\ \A i \in 1..Len(r.order) : r.order[i] = rec[i].n
+    /\ \A i \in 1..Len(r.order) : r.kids[i] = kids[i]
+    /\ \A i \in 2..Len(r.order) : rec[i].n > 0 => (r.vlen[i] = ValLen(i) /\ r.trunc[i] = Truncated(i))
     /\ r.wres = wres
 
 TrResult ==
@@ -45,6 +49,7 @@ TraceNext == TrStep \/ TrResult
 (* the C05/C07 invariants are evaluated on every state of every validated run *)
 TraceInvariant == /\ CountBound /\ DepthBound /\ CollBound /\ BreadthFirst /\ WatchBound
                   /\ LocalsFirst /\ Closed /\ OneIdPerObject /\ WatchClosed /\ WatchDedup
+                  /\ FramesShareBudget
 
 INSTANCE TraceCommon
 =============================================================================
